@@ -1266,15 +1266,31 @@ func (n *node) ApplicationProcessListShortInfo(name gen.Atom, limit int) ([]gen.
 }
 
 func (n *node) ApplicationStart(name gen.Atom, options gen.ApplicationOptions) error {
+	return n.applicationStart(name, options, nil)
+}
+
+// applicationStart starts the dependencies of the application first. 'starting' is the
+// chain of applications whose dependencies are being started by the callers of this call:
+// meeting one of them again means the dependency graph has a cycle (the recursion
+// used to run until the stack overflowed).
+func (n *node) applicationStart(name gen.Atom, options gen.ApplicationOptions, starting []gen.Atom) error {
 	v, exist := n.applications.Load(name)
 	if exist == false {
 		return gen.ErrApplicationUnknown
 	}
 	app := v.(*application)
 
+	for _, s := range starting {
+		if s == name {
+			n.log.Error("unable to start %s: cyclic dependency", name)
+			return gen.ErrApplicationDepends
+		}
+	}
+	starting = append(starting[:len(starting):len(starting)], name)
+
 	// check dependency on the other applications
 	for _, dep := range app.spec.Depends.Applications {
-		if err := n.ApplicationStart(dep, options); err != nil {
+		if err := n.applicationStart(dep, options, starting); err != nil {
 			if err == gen.ErrApplicationUnknown {
 				n.log.Error("unable to start %s: unknown dependent application %s", name, dep)
 				return gen.ErrApplicationDepends
